@@ -13,7 +13,7 @@
 From Coq Require Import List String Bool Arith.
 From Thunder Require Import Lib.Json DiffMerge.Model Server.Model Server.Spec Server.Proofs Server.ProofsLife
      Server.ProofsLog Server.Witness Server.Release Server.ProofsRelease Server.ProofsC17
-     Server.Product Server.ProductDrive Server.ProductWitness Server.ProofsProduct.
+     Server.Iface Server.Product Server.ProductDrive Server.ProductWitness Server.ProofsProduct.
 Import ListNotations.
 
 (** No leak, duplicate-id rule, map consistency.  In every reachable state: ids in the map are unique;
@@ -200,6 +200,28 @@ Theorem all_rerunners_stopped_after_close : forall w p rid ru,
   RR.r_stop (RR.getr (snd p) rid) = true /\ RR.r_comp (RR.getr (snd p) rid) = None.
 Proof. exact ProofsProduct.all_rerunners_stopped_after_close_l. Qed.
 Print Assumptions all_rerunners_stopped_after_close.
+
+(** The interface between the two models is the one the check observes.  Server/Iface.v derives from a step of
+    the connection model what reactive/rerunner.go reports at its observation points (Stop's critical section
+    and whether a computation was held, publish and whether there was a previous computation, a non-retry
+    failure); the correspondence check compares that, per rerunner, with the hooks' reports on every recorded
+    history (component 9).  In every step of the product the reactive side does exactly that to every rerunner
+    of the pool: the same event with the same flag, or nothing on both sides. *)
+Theorem interface_agrees : forall w p pl p' r,
+  preachable w p -> pstep w p pl = Some p' -> r < pool w ->
+  rx_ev (RR.getr (snd p) r) (RR.getr (snd p') r) =
+  match plabel_server w p pl with
+  | Some l => sv_ev (fst p) l (fst p') r
+  | None => None
+  end.
+Proof. exact ProofsProduct.interface_agrees_l. Qed.
+Print Assumptions interface_agrees.
+
+Example interface_example :
+  ptrace wx (pinit wx) h_end =
+  [(0, XPub false); (0, XPub true); (1, XFail); (1, XStop false); (2, XPub false); (2, XPub true);
+   (0, XPub true); (0, XStop true); (2, XStop true)].
+Proof. exact trace_example. Qed.
 
 (** Non-vacuity (Server/ProductWitness.v): the history of [live_convergence_example] (Props/C02.v) continued
     by unsubscribe 5, another change of slot 0 and the socket closing, 163 labels: everything stopped and at
